@@ -99,6 +99,17 @@ class SegmentAllocationTableAdapter(Adapter):
                     elif value_current == AKAI_SAT_FREE_FLAG or \
                             (value_current < size and dirty_flags[value_current]):
 
+                        if value_current != AKAI_SAT_FREE_FLAG \
+                                and not current_sector_is_directory:
+                            # the chain continues in sectors that were 
+                            # already decoded (its head is not its lowest 
+                            # sector): keep the walked part and join it
+                            links.append(subpath_index)
+                            add_to_sector_links(links, sector_links)
+                            sector_links[subpath_index] = SectorLink(
+                                next=value_current, 
+                                end=False
+                            )
                         continue_flag = False
                         dirty_flags[subpath_index] = True
                         previous_sector_was_directory = False
